@@ -214,6 +214,71 @@ func checkC19(c *core.Ctx) {
 			return core.Pass()
 		})
 	}
+	// a long history on ONE metric object: 14 batches of alternating sizes with
+	// rejected calls in between, Result after every call
+	c.Case("long/alternating", true, func() core.Verdict {
+		m := metrics.NewAccuracy()
+		total, correct := 0, 0
+		for k := 0; k < 14; k++ {
+			n := []int{3, 1, 5, 2}[k%4]
+			p, t := make([]float64, n), make([]float64, n)
+			for i := range p {
+				p[i] = float64((i + k) % 3)
+				t[i] = float64((i * (k + 1)) % 3)
+				total++
+				if p[i] == t[i] {
+					correct++
+				}
+			}
+			if err, _ := c19Apply(m, c19Ev{Kind: "batch", P: p, T: t}); err != nil {
+				return core.Fail("batch %d: %v", k, err)
+			}
+			if k%3 == 1 {
+				c19Apply(m, c19Ev{Kind: "invalid", Inv: []string{"nilpred", "mismatch", "rank2"}[k%3]})
+			}
+			r, err := m.Result()
+			if err != nil || r != float64(correct)/float64(total) {
+				return core.Fail("after %d batches: Result %v (err %v), expected %d/%d", k+1, r, err, correct, total)
+			}
+		}
+		return core.Pass()
+	})
+	// very large batches (block / worker splits): one batch vs. several splits
+	for _, n := range []int{1000, 2048, 2053, 4099, 5003} {
+		n := n
+		c.Case(fmt.Sprintf("huge/n%d", n), true, func() core.Verdict {
+			p, t := make([]float64, n), make([]float64, n)
+			matched := 0
+			for i := range p {
+				p[i] = float64(i % 5)
+				t[i] = float64((i * 7) % 5)
+				if i >= n-9 { // the tail matters: make the last positions match
+					t[i] = p[i]
+				}
+				if p[i] == t[i] {
+					matched++
+				}
+			}
+			exp := float64(matched) / float64(n)
+			for _, cuts := range [][]int{{}, {n / 2}, {3, 4}, {n - 1}, {1000 % n, (1000 % n) + 1}} {
+				m := metrics.NewAccuracy()
+				start := 0
+				for _, cut := range append(append([]int{}, cuts...), n) {
+					if cut <= start || cut > n {
+						continue
+					}
+					if err, _ := c19Apply(m, c19Ev{Kind: "batch", P: p[start:cut], T: t[start:cut]}); err != nil {
+						return core.Fail("Accumulate of %d positions: %v", cut-start, err)
+					}
+					start = cut
+				}
+				if r, _ := m.Result(); r != exp {
+					return core.Fail("%d positions (%d matches) split at %v: Result %v, expected %v", n, matched, cuts, r, exp)
+				}
+			}
+			return core.Pass()
+		})
+	}
 	// partition invariance: every label-pair sequence of length <= n and every
 	// one of its 2^(n-1) consecutive partitions into batches
 	maxLen := 5
